@@ -160,18 +160,60 @@ Fixpoint unify (n : nat) (s t : ty) (sb : subst) : outcome :=
       end
   end.
 
-(** `type_check_args` for already synthesised (closed) argument types: each argument is
-    checked against `func_inp.ty.substitute(subst)` by `unify(exp, act, {})` and the result
-    is merged with `subst |= s` (dict update: new keys win, here: prepended). *)
+(** ---- calls to generic functions (checker/expr_checker.py) ------------------------------
+    `type_check_args(inputs, func_ty, subst)` with `func_ty = unquantified()` (parameters replaced
+    by fresh existential variables):
+        for inp, func_inp in zip(inputs, func_ty.inputs):
+            a, s = ExprChecker(ctx).check(inp, func_inp.ty.substitute(subst)); subst |= s
+    For an argument expression whose type is synthesised (names, calls, ... : `generic_visit`,
+    and the `isinstance(ty, ExistentialTypeVar)` shortcut gives the same answer) `check` is
+    `check_type_against(act, exp)`: `unify(exp, act, {})` with the CLOSED synthesised type `act`
+    and an EMPTY substitution; if that fails, `try_coerce_to` accepts a top-level numeric
+    widening (Kind order nat < int < float) with the empty substitution.
+    `substitute` is ONE Substituter pass (`app`); `subst |= s` is a dict update (prepend). *)
+Definition kind_lt (a b : numkind) : bool :=
+  match a, b with KNat, KInt | KNat, KFloat | KInt, KFloat => true | _, _ => false end.
+Definition widen (act exp : ty) : bool :=             (* try_coerce_to succeeds *)
+  match act, exp with
+  | Nd (HNum k1) [], Nd (HNum k2) [] => kind_lt k1 k2
+  | _, _ => false
+  end.
+Definition check_arg (n : nat) (exp act : ty) : outcome :=      (* check_type_against, act closed *)
+  match unify n exp act [] with
+  | NoUnifier => if widen act exp then Unifier [] else NoUnifier
+  | r => r
+  end.
 Fixpoint check_args (n : nat) (inputs acts : list ty) (sb : subst) : outcome :=
   match inputs, acts with
   | [], [] => Unifier sb
   | i :: inputs', a :: acts' =>
-      match unify n (app sb i) a [] with
+      match check_arg n (app sb i) a with
       | Unifier s' => check_args n inputs' acts' (s' ++ sb)
       | r => r
       end
   | _, _ => NoUnifier                                   (* check_num_args *)
+  end.
+
+(** `synthesize_call`: type_check_args from {}, then `check_all_solved` (every quantified
+    variable got a solution) and `check_inst` (the solution respects the copy/drop bounds of
+    the parameter; the bound is part of the variable id, see Ty.v).  The answer is the
+    instantiation `inst` read off the substitution. *)
+Definition bound_ok (x : N) (w : ty) : bool :=
+  implb (ex_copy x) (copyable w) && implb (ex_drop x) (droppable w).
+Inductive call_result := CallOutOfFuel | CallRejected | CallAccepted (inst : list ty).
+Fixpoint read_inst (sb : subst) (params : list N) : option (list ty) :=
+  match params with
+  | [] => Some []
+  | x :: r => match lookup sb x, read_inst sb r with
+              | Some w, Some l => if bound_ok x w then Some (w :: l) else None
+              | _, _ => None
+              end
+  end.
+Definition synth_call (n : nat) (params : list N) (inputs acts : list ty) : call_result :=
+  match check_args n inputs acts [] with
+  | OutOfFuel => CallOutOfFuel
+  | NoUnifier => CallRejected
+  | Unifier sb => match read_inst sb params with Some l => CallAccepted l | None => CallRejected end
   end.
 
 (** the pre-patch `_unify_var` (unresolved occurs check, only type variables chased on the
@@ -231,5 +273,11 @@ Definition ser_outcome (o : outcome) : Z * list (Z * list Z) :=
   | OutOfFuel => ((-1)%Z, [])
   | NoUnifier => (0%Z, [])
   | Unifier s => (1%Z, ser_subst s)
+  end.
+Definition ser_call (r : call_result) : Z * list (list Z) :=
+  match r with
+  | CallOutOfFuel => ((-1)%Z, [])
+  | CallRejected => (0%Z, [])
+  | CallAccepted l => (1%Z, map ser l)
   end.
 Definition ser_opt (o : option ty) : list Z := match o with Some t => ser t | None => [(-1)%Z] end.
